@@ -23,6 +23,7 @@ func init() {
 		},
 		Run: runC26,
 		Controls: []Control{
+			{Name: "refactor-explicit-unlocks", Silent: true, File: "protocols/bgp/server/peer.go", Old: "func (p *peer) singleFSM() *FSM {\n\tp.fsmsMu.Lock()\n\tdefer p.fsmsMu.Unlock()\n\n\tif len(p.fsms) != 1 {\n\t\treturn nil\n\t}\n\n\treturn p.fsms[0]\n}", New: "func (p *peer) singleFSM() *FSM {\n\tp.fsmsMu.Lock()\n\tif len(p.fsms) != 1 {\n\t\tp.fsmsMu.Unlock()\n\t\treturn nil\n\t}\n\n\tfsm := p.fsms[0]\n\tp.fsmsMu.Unlock()\n\treturn fsm\n}"},
 			{Name: "fsm-list-read-unlocked", File: "protocols/bgp/server/peer.go", Old: "func (p *peer) singleFSM() *FSM {\n\tp.fsmsMu.Lock()\n\tdefer p.fsmsMu.Unlock()\n", New: "func (p *peer) singleFSM() *FSM {\n", Expect: "guarded-by"},
 			{Name: "locrib-replacepath-read-lock", File: "routingtable/locRIB/loc_rib.go", Old: "func (a *LocRIB) ReplacePath(pfx *net.Prefix, oldPath *route.Path, newPath *route.Path) {\n\ta.mu.Lock()\n\tdefer a.mu.Unlock()", New: "func (a *LocRIB) ReplacePath(pfx *net.Prefix, oldPath *route.Path, newPath *route.Path) {\n\ta.mu.RLock()\n\tdefer a.mu.RUnlock()", Expect: "table-mutation-under-write-lock"},
 			{Name: "sender-reads-queue-entry-unlocked", File: "protocols/bgp/server/update_sender.go", Old: "\t\t\tpathAttrs, updatesPrefixes, pathID := u._getUpdateInformation(pathNLRIs)\n\n\t\t\tdelete(u.toSend, key)\n\t\t\tu.sendMu.Lock()\n\t\t\tu.toSendMu.Unlock()\n", New: "\t\t\tdelete(u.toSend, key)\n\t\t\tu.sendMu.Lock()\n\t\t\tu.toSendMu.Unlock()\n\t\t\tpathAttrs, updatesPrefixes, pathID := u._getUpdateInformation(pathNLRIs)\n", Expect: "underscore-called-under-lock"},
